@@ -9,13 +9,17 @@
 #include "common.h"
 
 static CC_PQueue *pq;
-static int cmp_mode;   /* 0 = numeric, 1 = v % 10 */
+static int cmp_mode;   /* 0 = numeric, 1 = v % 10, 2 = clamped 64-bit difference */
 static int sparse;     /* obs=sparse: no content sweep after an operation, only on `observe` */
 static void shim_reset(void) { pq = NULL; cmp_mode = 0; sparse = 0; }
 
-static unsigned long long key_of(unsigned long long v) { return cmp_mode ? v % 10 : v; }
+static unsigned long long key_of(unsigned long long v) { return cmp_mode == 1 ? v % 10 : v; }
 static int cmp_fn(const void *a, const void *b) {
     unsigned long long ka = key_of(VAL(a)), kb = key_of(VAL(b));
+    if (cmp_mode == 2) {   /* the 64-bit difference without wrap-around, clamped to the range of int */
+        if (ka >= kb) return ka - kb > 2147483647ULL ? 2147483647 : (int)(ka - kb);
+        return kb - ka > 2147483648ULL ? (-2147483647 - 1) : -(int)(kb - ka - 1) - 1;
+    }
     return ka > kb ? 7 : ka < kb ? -3 : 0;      /* deliberately not -1/0/1 */
 }
 
@@ -54,7 +58,7 @@ static void do_op(Cmd *c) {
     have_out = 0;
     if (is_op(c, "new") || is_op(c, "new_default")) {
         pq = NULL;
-        cmp_mode = !strcmp(kv_str(c, "cmp", "num"), "mod");
+        cmp_mode = !strcmp(kv_str(c, "cmp", "num"), "mod") ? 1 : !strcmp(kv_str(c, "cmp", "num"), "diff") ? 2 : 0;
         sparse = !strcmp(kv_str(c, "obs", "full"), "sparse");
         enum cc_stat st;
         if (is_op(c, "new")) {
